@@ -146,3 +146,50 @@ def st_checkauth_any(ir):
             return (NIL, lib.mk_error(s, z3.StringVal('auth'), 'checkAuth'))
         return lib.fork_results(ex, st, ins, [(None, bad), (None, ok)])
     return f
+
+
+AUTH_COOKIE = 'auth_cookie'
+
+
+def last_auth_cookie_alts(ex, st):
+    """[(condition, index, value term)] : which request cookie is the last one named auth_cookie"""
+    lib.req_cookies(ex, st, [None], {})      # materialise (may raise Choice for the count)
+    ptrs = st.memo[lib.rk(st, 'req.cookies')]
+    T = ex.ir.typeid('net/http.Cookie'); ni = ex.ir.field_index(T, 'Name'); vi = ex.ir.field_index(T, 'Value')
+    names = [ex.field(st, st.heap[p.obj], ni) for p in ptrs]; vals = [ex.field(st, st.heap[p.obj], vi) for p in ptrs]
+    alts = []
+    for i in range(len(ptrs)):
+        c = z3.And([names[i] == z3.StringVal(AUTH_COOKIE)] + [names[j] != z3.StringVal(AUTH_COOKIE) for j in range(i + 1, len(ptrs))])
+        alts.append((c, i, vals[i]))
+    return alts
+
+
+def st_checkauth_modes(ir):
+    """refined gate stub for C05: an admission names the credential it came from - the LAST auth_cookie of the request (claims by
+    Contract J), a client certificate, or basic-auth - as proved of the real checkAuth by the gate lemma + the last-cookie lemma"""
+    from . import jose
+    def f(ex, st, a, ins):
+        req = a[3]
+        alts = last_auth_cookie_alts(ex, st)
+        st.ev('checkAuth', required=req)
+        n = len(st.evs('checkAuth'))
+        def mk(s, user, bits, how, **kw):
+            ai = am.authinfo_struct(ex, s, bits, user, TimeV(z3.BitVec(f'auth{n}.exp', lib.TW)), TimeV(z3.BitVec(f'auth{n}.iat', lib.TW)))
+            s.pc.append(bits & req != 0); s.pc.append(same_site(s))
+            s.ev('admitted', bits=bits, user=user, required=req, how=how, **kw)
+            return (Ptr(s.alloc(ai)), lib.nilerr())
+        def bad(s):
+            s.ev('fail', code=z3.BitVecVal(401, 64), msg=z3.StringVal('(checkAuth refusal)'))
+            return (NIL, lib.mk_error(s, z3.StringVal('auth'), 'checkAuth'))
+        out = [(None, bad)]
+        for c, i, tok in alts:
+            def cookie_mode(s, tok=tok):
+                t = jose.tokid(tok)
+                s.pc.append(jose.Verifies(tok)); s.pc.append(z3.String(f'jwt[{t}].token_type') == z3.StringVal('keymaster_auth'))
+                return mk(s, z3.String(f'jwt[{t}].sub'), z3.BitVec(f'jwt[{t}].auth_type', 64), 'cookie', token=tok)
+            out.append((c, cookie_mode))
+        out.append((None, lambda s: mk(s, z3.String(f'cert{n}.user'), z3.BitVec(f'cert{n}.bits', 64), 'certificate')))
+        none_named = z3.And([z3.Not(c) for c, i, tok in alts]) if alts else None      # basic-auth is only consulted when no auth_cookie is present
+        out.append((none_named, lambda s: mk(s, z3.String(lib.rk(s, 'basic.user.normalised')), z3.BitVecVal(am.PASSWORD, 64), 'basic-auth')))
+        return lib.fork_results(ex, st, ins, out)
+    return f
